@@ -76,6 +76,18 @@ func verifNativeSweepHOTP(secret string, counter uint64, dt, at string, skew uin
 	}
 }
 
+// "arbitrary sequences of requests": a request that writes no state a later request can read
+// leaves every later answer what it is for a single request, which the harnesses below decide.
+// Symbolically this is the frame rule over everything the handler chain executes; its native
+// twin (the replay of a model) is a sequence of well-formed probe requests after the request.
+func verifAfterRequest() {
+	if verifSymbolic() {
+		verifAssert(verifFrameViolations() == 0, "request-leaves-no-state-for-later-requests")
+	} else if verifNative() {
+		verifNativeProbes()
+	}
+}
+
 // the instant the handler must use: the request's timestamp if positive, otherwise "now"
 func verifInstant(ts int64) (time.Time, bool) {
 	if ts > 0 {
@@ -103,7 +115,9 @@ func verifH_C18_totp() {
 	t := time.Unix(ts, 0)
 	if verifCase("op") == 0 {
 		ctx := verifHTTP("POST", "/totp/generate", "", "", otpGenerateReq{Secret: secret, Timestamp: ts, Digits: dt, Period: period, Algorithm: at}, false)
+		verifBeginOp()
 		routers(ctx)
+		verifAfterRequest()
 		var resp otpGenerateResp
 		got := verifHTTPResp(ctx, &resp)
 		status := verifHTTPStatus(ctx)
@@ -127,7 +141,9 @@ func verifH_C18_totp() {
 		verifAssert(resp.TimeStamp == ts, "timestamp-echoed")
 	} else {
 		ctx := verifHTTP("POST", "/totp/validate", "", "", otpValidateReq{Secret: secret, Timestamp: ts, Code: code, Digits: dt, Period: period, Skew: skew, Algorithm: at}, false)
+		verifBeginOp()
 		routers(ctx)
+		verifAfterRequest()
 		var resp otpValidateResp
 		got := verifHTTPResp(ctx, &resp)
 		status := verifHTTPStatus(ctx)
@@ -162,7 +178,9 @@ func verifH_C18_hotp() {
 	digits, alg := otp.DigitsFromStr(dt), otp.AlgorithmFromStr(at)
 	if verifCase("op") == 0 {
 		ctx := verifHTTP("POST", "/hotp/generate", "", "", otpGenerateReq{Secret: secret, Counter: counter, Digits: dt, Algorithm: at}, false)
+		verifBeginOp()
 		routers(ctx)
+		verifAfterRequest()
 		var resp otpGenerateResp
 		got := verifHTTPResp(ctx, &resp)
 		status := verifHTTPStatus(ctx)
@@ -184,7 +202,9 @@ func verifH_C18_hotp() {
 		verifAssert(resp.Counter == counter, "counter-echoed")
 	} else {
 		ctx := verifHTTP("POST", "/hotp/validate", "", "", otpValidateReq{Secret: secret, Counter: counter, Code: code, Digits: dt, Skew: skew, Algorithm: at}, false)
+		verifBeginOp()
 		routers(ctx)
+		verifAfterRequest()
 		var resp otpValidateResp
 		got := verifHTTPResp(ctx, &resp)
 		status := verifHTTPStatus(ctx)
@@ -217,7 +237,9 @@ func verifH_C18_now() {
 	verifAssume(ts <= 0)
 	if verifCase("op") == 0 {
 		ctx := verifHTTP("POST", "/totp/generate", "", "", otpGenerateReq{Secret: "AB", Timestamp: ts}, false)
+		verifBeginOp()
 		routers(ctx)
+		verifAfterRequest()
 		var resp otpGenerateResp
 		if !verifHTTPResp(ctx, &resp) {
 			// the library refused (function symbol's error outcome): must not be reported as success
@@ -230,7 +252,9 @@ func verifH_C18_now() {
 		verifAssert(verifStrEq(resp.Code, want), "code-is-for-the-echoed-instant")
 	} else {
 		ctx := verifHTTP("POST", "/totp/validate", "", "", otpValidateReq{Secret: "AB", Code: "123456", Timestamp: ts}, false)
+		verifBeginOp()
 		routers(ctx)
+		verifAfterRequest()
 		verifAssert(verifHTTPStatus(ctx) == 200, "success-status")
 	}
 }
@@ -241,7 +265,9 @@ func verifH_C18_now() {
 func verifH_C18_secret() {
 	at := verifAlgText[verifCase("at")]
 	ctx := verifHTTP("GET", "/otp/secret", "algorithm", at, nil, false)
+	verifBeginOp()
 	routers(ctx)
+	verifAfterRequest()
 	var resp generateRandomSecretResp
 	got := verifHTTPResp(ctx, &resp)
 	alg := otp.AlgorithmFromStr(at)
@@ -354,7 +380,9 @@ func verifH_C18_ocra() {
 	verifAssume(ierr == nil)
 	if verifCase("op") == 0 {
 		ctx := verifHTTP("POST", "/ocra/generate", "", "", ocraGenerateReq{Secret: secret, RawSuite: rawName, Suite: sc, Input: hin}, false)
+		verifBeginOp()
 		routers(ctx)
+		verifAfterRequest()
 		var resp otpGenerateResp
 		got := verifHTTPResp(ctx, &resp)
 		wcode, werr := otp.GenerateOCRA(secret, want, in)
@@ -368,7 +396,9 @@ func verifH_C18_ocra() {
 		verifAssert(resp.Suite == want.String(), "suite-name-echoed")
 	} else {
 		ctx := verifHTTP("POST", "/ocra/validate", "", "", ocraValidateReq{Secret: secret, Code: code, RawSuite: rawName, Suite: sc, Input: hin}, false)
+		verifBeginOp()
 		routers(ctx)
+		verifAfterRequest()
 		var resp otpValidateResp
 		got := verifHTTPResp(ctx, &resp)
 		wok, _ := otp.ValidateOCRA(secret, code, want, in)
